@@ -573,6 +573,81 @@ def _str_rule(ctx, tb: ClassInfo):
         run.error('C17.str', m.module.name, m.qualname, '__str__', 'no join-based return found')
 
 
+def _flatten_by_interpretation(ctx, f0: FuncInfo):
+    """flatten_to_strlist interpreted (dznverif.scenario, E7) on nested values built from: None, '', 'a', a number, an empty
+    and a non-empty list / dict, nesting up to three levels, a container that occurs twice; both skip modes.  Compared with
+    the specification written down here: depth-first, left to right; list items and dict values in order; None contributes
+    nothing; '' is kept only when not skipped; a str is itself; anything else is str(x) unless that is empty.  The function
+    looks at the type and emptiness of what it is given and nothing else.  (number of evaluations, disagreements) or None."""
+    from ..scenario import Interp, Raised, Undecided
+    prog = ctx.prog
+    shared_ = ['x', '']
+    values = [None, '', 'a', 0, 7, [], {}, ['a'], ['', 'b'], [None], {'k': 'v'}, {'k': '', 'm': None, 'n': 'w'},
+              ['a', ['b', ['c', '']], 'd'], [[], {}, [[]]], {'k': ['a', {'m': ['b']}], 'n': 'c'}, [['a'], None, [''], 5],
+              [shared_, shared_], ['a', {'k': []}, 'b'], [[['deep']]], 'two\nlines',
+              # objects that are neither str nor container: a text block renders as its lines, an empty one as ''
+              ('tb', ()), ['a', ('tb', ()), 'b'], ('tb', ('x', 'y')), [('tb', ('x',)), {'k': ('tb', ())}]]
+    tb_cls = prog.classes.get('dznpy.text_gen.TextBlock')
+
+    def build(it, v):
+        if isinstance(v, tuple) and v and v[0] == 'tb':
+            if tb_cls is None:
+                raise Undecided('TextBlock vanished')
+            return it.construct(tb_cls, [list(v[1])], {})
+        if isinstance(v, list):
+            return [build(it, x) for x in v]
+        if isinstance(v, dict):
+            return {k: build(it, x) for k, x in v.items()}
+        return v
+
+    def spec(v, skip, out):
+        if v is None:
+            return out
+        if isinstance(v, list):
+            for x in v:
+                spec(x, skip, out)
+        elif isinstance(v, dict):
+            for x in v.values():
+                spec(x, skip, out)
+        elif isinstance(v, str):
+            if v or not skip:
+                out.append(v)
+        elif isinstance(v, tuple) and v and v[0] == 'tb':
+            text = ''.join(x + '\n' for x in v[1])
+            if text:
+                out.append(text)
+        else:
+            if str(v):
+                out.append(str(v))
+        return out
+    bad: List[str] = []
+    n = 0
+    import copy
+    try:
+        for v in values:
+            for skip in (True, False):
+                n += 1
+                it_ = Interp(prog)
+                arg = build(it_, copy.deepcopy(v))
+                try:
+                    got = it_.call_function(f0, [arg, skip], {})
+                except Raised as exc:
+                    bad.append(f'{v!r}, skip_empty_strings={skip}: raises {exc.name.split(".")[-1]}')
+                    continue
+                got = list(got) if isinstance(got, (list, tuple)) else None
+                if got is None:
+                    raise Undecided('flatten_to_strlist does not yield a list')
+                want = spec(v, skip, [])
+                if got != want:
+                    bad.append(f'{v!r}, skip_empty_strings={skip}: flattened to {got!r}, expected {want!r}')
+                if 'tb' not in repr(v) and arg != v:
+                    bad.append(f'{v!r}, skip_empty_strings={skip}: the argument is changed to {arg!r}')
+    except Undecided as exc:
+        ctx.run.remark(f'C17: flatten_to_strlist could not be interpreted ({exc}); the branch walk decides')
+        return None
+    return n, bad
+
+
 def _flatten_rule(ctx):
     """What flatten_to_strlist contributes for a value of each kind, decided by walking the function (or the generator it
     wraps) under a scenario: kind of `value` x skip flag.  The walk follows the branch every test selects and records what
@@ -582,6 +657,18 @@ def _flatten_rule(ctx):
     f0 = prog.try_func('misc_utils', 'flatten_to_strlist')
     if f0 is None:
         run.error('C17.flatten-shape', 'dznpy.misc_utils', '-', 'flatten_to_strlist', 'flatten_to_strlist vanished')
+        return
+    sem = _flatten_by_interpretation(ctx, f0)
+    if sem is not None:
+        n_, bad_ = sem
+        for skipping in (True, False):
+            mine = [b for b in bad_ if f'skip_empty_strings={skipping}' in b]
+            run.add('C17.flatten-shape', f0.module.name, f0.qualname, f'{n_ // 2} nested values, skip_empty_strings={skipping}', not mine,
+                    'the flattened list is the depth-first, left-to-right sequence of the pieces: None and empty containers contribute nothing, '
+                    'an empty string only when it is not skipped, dict values in order, other values by str() unless that is empty '
+                    '(flatten_to_strlist interpreted on nested values, E7)' if not mine else '; '.join(mine[:3]))
+        run.stats['flatten_decided_by'] = f'interpretation of flatten_to_strlist on {n_} values (E7)'
+        run.floor('C17.flatten-shape', 2)
         return
     fam = flatten_family(ctx)
     core_name = next((n for n in fam if n != 'flatten_to_strlist'), 'flatten_to_strlist')
